@@ -14,7 +14,8 @@ META = {
     'level_note': 'Non-symbolic mutable leaf objects (shared by a shallow clone by design) and pg.Ref targets are not in the '
                   'model: leaves are immutable ints.  The onchange callback of a List is dropped by clone (as coded; not a '
                   'behavioural flag of the statement).  A copy is sealed iff the original or one of its copied ancestors was '
-                  '(the constructor seals deeply).  Bounded as C01.',
+                  '(the constructor seals deeply); a class whose instances are born sealed is part of the configurations (an '
+                  'unsealed instance must clone to an unsealed one).  Bounded as C01.',
 }
 
 CLAUSES = {'content', 'flags', 'parent', 'path', 'lookup', 'oneplace', 'bind', 'ret'}
